@@ -16,10 +16,11 @@
 //   key x        hex of px.ToKey(x)                                                     → "x<hex>" | "reported INVALID_HASH_KEY"
 //   get H k      H.Get(k)                                                               → "some <value>" | "none"
 //   unique xs    Array.Unique                                                           → "(a v*)"
-//   @veq / @veq3 / @vkey / @vget / @vunique   implementation only: the same five ops over the value kinds that have no model
-//                counterpart: (uri xHEX) URI, (ver xHEX) SemVer (mixed with the modelled kinds)
 //   @teq s t / @teq3 s t u   implementation only: the same laws on types given as *type expressions* (hex strings parsed by
-//                c.ParseType), for the type kinds that have no model counterpart (String[n], Struct, Hash, Pattern, Callable …)
+//                c.ParseType): every kind, in particular those that have no model counterpart (URI[..], Timespan / Timestamp
+//                ranges, Object, TypeSet, Init with arguments …)
+//   @vrcheck / @objcheck / @tstype / @refl   implementation only: see kinds.go, objects.go, execTimestampTypes, reflected.go
+// More value kinds (uri ver vmin vr tn df par obj) and type kinds: kinds.go, objects.go, typekinds.go.
 // The property predicate is evaluated directly on the implementation for every op (see `exec`).
 package c07
 
